@@ -19,6 +19,10 @@ WORKER = {'depth': 0}
 THREAD_VIOLATIONS = []
 
 
+FRAMES = []        # executor of every worker frame that is on the stack (innermost last)
+PARKED = []        # executors whose worker frame is parked in run_coroutine_threadsafe(...).result(), i.e. waits for the loop thread
+
+
 class InlineExecutor:
     """ThreadPoolExecutor stand-in: the submitted function runs to completion at submit."""
 
@@ -28,6 +32,7 @@ class InlineExecutor:
     def submit(self, fn, *a, **k):
         f = concurrent.futures.Future()
         WORKER['depth'] += 1          # fn stands for code running on a worker thread, not on the loop thread
+        FRAMES.append(self)
         try:
             f.set_result(fn(*a, **k))
         except BaseException as e:  # noqa
@@ -35,11 +40,24 @@ class InlineExecutor:
                 raise
             f.set_exception(e)
         finally:
+            FRAMES.pop()
             WORKER['depth'] -= 1
         return f
 
-    def shutdown(self, *a, **k):
-        pass
+    def shutdown(self, wait=True, **k):
+        # A real pool joins its threads here. Called on the loop thread while one of this pool's threads waits for that very
+        # thread (run_coroutine_threadsafe(...).result()), the join never returns: recorded, since the stand-in cannot block.
+        if wait and WORKER['depth'] == 0 and any(x is self for x in PARKED):
+            n = sum(1 for x in PARKED if x is self)
+            THREAD_VIOLATIONS.append(f'deadlock: the loop thread joins a thread pool (shutdown(wait=True) / leaving `with executor`) while {n} of its '
+                                     'threads wait for a coroutine that only the loop thread can run')
+
+    def __enter__(self):
+        return self
+
+    def __exit__(self, *exc):
+        self.shutdown(wait=True)
+        return False
 
 
 class Crash(SystemExit):
@@ -144,11 +162,13 @@ def run_coroutine_threadsafe(coro, loop):
     if cur is not None:
         asyncio.tasks._leave_task(loop, cur)
     depth, WORKER['depth'] = WORKER['depth'], 0       # the loop thread runs the coroutine; the worker only waits
+    PARKED.append(FRAMES[-1] if FRAMES and depth > 0 else None)
     try:
         task = loop.create_task(coro)
         while not task.done():
             loop._step()
     finally:
+        PARKED.pop()
         WORKER['depth'] = depth
         if cur is not None:
             asyncio.tasks._enter_task(loop, cur)
@@ -166,12 +186,12 @@ class GuardedSlots(asyncio.PriorityQueue):
 
     def put_nowait(self, item):
         if WORKER['depth'] > 0:
-            THREAD_VIOLATIONS.append('asyncio slot queue: put_nowait called from a worker thread')
+            THREAD_VIOLATIONS.append('asyncio slot queue: put_nowait called from a worker thread (lost wake-ups: a loader can wait forever for a slot that is free)')
         return super().put_nowait(item)
 
     def get_nowait(self):
         if WORKER['depth'] > 0:
-            THREAD_VIOLATIONS.append('asyncio slot queue: get_nowait called from a worker thread')
+            THREAD_VIOLATIONS.append('asyncio slot queue: get_nowait called from a worker thread (lost wake-ups: a loader can wait forever for a slot that is free)')
         return super().get_nowait()
 
 
@@ -440,6 +460,27 @@ def silence():
         yield sys.stdout
     finally:
         sys.stdout = old
+
+
+@contextlib.contextmanager
+def verbosity(level):
+    """Run with the replicat loggers at `level` (what -v / -vv / log-level do), records swallowed by a NullHandler."""
+    import logging
+    if level is None:
+        yield
+        return
+    lg = logging.getLogger('replicat')
+    old = (lg.level, lg.propagate)
+    h = logging.NullHandler()
+    lg.addHandler(h)
+    lg.setLevel(level)
+    lg.propagate = False
+    try:
+        yield
+    finally:
+        lg.removeHandler(h)
+        lg.setLevel(old[0])
+        lg.propagate = old[1]
 
 
 def fast_settings(encrypted=True, cipher=None, hashing=None, chunking=None):
